@@ -303,10 +303,10 @@ func numReparses(f *big.Float) bool {
 	return err == nil && p.RawEquals(cty.NumberVal(f))
 }
 
-// c15SideConditions names the first side condition of C15.roundtrip_partial that
-// (v, t) violates, or "" if all hold.  (A Go mirror of the Lean predicates, used only
-// to name the root cause of a round-trip failure.)
-func c15SideConditions(v cty.Value, t cty.Type, inSet bool) string {
+// c15SideAll collects the side conditions of C15.roundtrip_partial that (v, t)
+// violates.  (A Go mirror of the Lean predicates, used only to name the root cause of
+// a round-trip failure.)
+func c15SideAll(v cty.Value, t cty.Type, inSet bool, out map[string]bool) {
 	if t == cty.DynamicPseudoType {
 		t = v.Type()
 	}
@@ -314,28 +314,27 @@ func c15SideConditions(v cty.Value, t cty.Type, inSet bool) string {
 	exact := t.Equals(vt)
 	if v.IsNull() {
 		if !exact {
-			return "typeloss-null"
+			out["typeloss-null"] = true
 		}
-		return ""
+		return
 	}
 	switch {
 	case vt == cty.Number:
 		f := v.AsBigFloat()
 		if !numReparses(f) {
-			return "num-reparse"
-		}
-		if inSet {
+			out["num-reparse"] = true
+		} else if inSet {
 			p, _ := cty.ParseNumberVal(f.Text('f', -1))
 			if cty.VerifHash(p) != cty.VerifHash(v) {
-				return "set-hash"
+				out["set-hash"] = true
 			}
 		}
 	case vt.IsListType() || vt.IsSetType() || vt.IsMapType():
 		if v.LengthInt() == 0 {
 			if !exact {
-				return "typeloss-empty"
+				out["typeloss-empty"] = true
 			}
-			return ""
+			return
 		}
 		ety := cty.DynamicPseudoType
 		if t.IsListType() || t.IsSetType() || t.IsMapType() {
@@ -343,38 +342,45 @@ func c15SideConditions(v cty.Value, t cty.Type, inSet bool) string {
 		}
 		for it := v.ElementIterator(); it.Next(); {
 			_, ev := it.Element()
-			if s := c15SideConditions(ev, ety, inSet || vt.IsSetType()); s != "" {
-				return s
-			}
+			c15SideAll(ev, ety, inSet || vt.IsSetType(), out)
 		}
 	case vt.IsTupleType():
-		if !t.IsTupleType() {
-			return "nonconforming"
+		if !t.IsTupleType() || len(t.TupleElementTypes()) != v.LengthInt() {
+			out["nonconforming"] = true
+			return
 		}
 		etys := t.TupleElementTypes()
 		i := 0
 		for it := v.ElementIterator(); it.Next(); i++ {
 			_, ev := it.Element()
-			if i >= len(etys) {
-				return "nonconforming"
-			}
-			if s := c15SideConditions(ev, etys[i], inSet); s != "" {
-				return s
-			}
+			c15SideAll(ev, etys[i], inSet, out)
 		}
 	case vt.IsObjectType():
 		if !t.IsObjectType() {
-			return "nonconforming"
+			out["nonconforming"] = true
+			return
 		}
 		atys := t.AttributeTypes()
 		for _, k := range sortedKeys(vt.AttributeTypes()) {
 			aty, ok := atys[k]
 			if !ok {
-				return "nonconforming"
+				out["nonconforming"] = true
+				return
 			}
-			if s := c15SideConditions(v.GetAttr(k), aty, inSet); s != "" {
-				return s
-			}
+			c15SideAll(v.GetAttr(k), aty, inSet, out)
+		}
+	}
+}
+
+// c15Side: the violated side condition of highest precedence (a type loss changes the
+// type or panics whatever the numbers are; a number that does not re-parse breaks
+// RawEquals whatever the set hashes are).
+func c15Side(v cty.Value, t cty.Type) string {
+	all := map[string]bool{}
+	c15SideAll(v, t, false, all)
+	for _, s := range []string{"nonconforming", "typeloss-null", "typeloss-empty", "num-reparse", "set-hash"} {
+		if all[s] {
+			return s
 		}
 	}
 	return ""
@@ -484,12 +490,12 @@ func c15RoundTrip(ctx *Ctx, v cty.Value, t cty.Type, how string) {
 	ctx.Tag("pair:" + how)
 	key := "rt " + encVal(v) + " " + encTy(t)
 	b, mo := c15Marshal(ctx, v, t)
-	side := c15SideConditions(v, t, false)
+	side := c15Side(v, t)
 	in := encVal(v) + " " + encTy(t)
 	fail := func(kind, what, outcome string) {
-		sig := "unexpected:" + kind
+		sig := kind + ":unexpected"
 		if side != "" {
-			sig = side + ":" + kind
+			sig = kind + ":" + side
 		}
 		ctx.Fail(Failure{Site: "roundtrip", Sig: sig, What: what, Input: in, GoLit: c15GoLit(v, t), Outcome: outcome})
 	}
@@ -589,5 +595,7 @@ func runC15(ctx *Ctx) {
 		}
 		c15Rejects(ctx, v, t)
 	}
+	// 3. documents, number parsing, NumOK
+	runC15Docs(ctx)
 	sort.Strings(ctx.res.Samples)
 }
